@@ -253,8 +253,12 @@ def main(argv=None):
         if r.get("error"):
             errors.append((r["label"], r["error"]))
         bcov.append({k: r.get(k) for k in ("label", "bound", "cases", "distinct", "wall_s", "sample")})
+        seen_b = set()
         for v in r.get("violations", []):
             vid = f"{prop}/bounded:{r['label']}/{v['id']}"
+            if (vid, v.get("witness")) in seen_b:
+                continue
+            seen_b.add((vid, v.get("witness")))
             f = finding_for(findings, prop, vid, v.get("witness"))
             if f is not None:
                 if (vid, f) not in known:
@@ -262,7 +266,7 @@ def main(argv=None):
                 continue
             d = os.path.join(VERIF, "replays", prop)
             os.makedirs(d, exist_ok=True)
-            path = os.path.join(d, safe("bounded_" + r["label"] + "_" + v["id"]) + ".json")
+            path = os.path.join(d, safe("bounded_" + r["label"] + "_" + v["id"] + "_" + str(v.get("witness") or "")) + ".json")
             with open(path, "w") as fd:
                 json.dump({"property": prop, "obligation": vid, "bounded": {"script": r["script"], "args": r.get("args"), "case": v}, "detail": v}, fd, indent=1, default=str)
             violations.append((vid, os.path.relpath(path, VERIF), True, v.get("witness")))
